@@ -134,7 +134,7 @@ func runC11(cfg *vh.Config) error {
 		deepChild()
 	}
 	res := vh.NewResult("C11", cfg.Seed)
-	res.Rule = "inputs: every sequence of <=3 tokens over a 24-entry alphabet (all token types, a space, a character no token starts with, an unterminated string) rendered with single spaces, every sequence of <=2 rendered adjacent; windows of the repository's .j5s/.bcl/fixture files, unmutated and with 1-3 token deletions/insertions/swaps/duplications/truncations and multi-byte characters at line ends; grammar-generated files; every token-boundary prefix of generated statements (EOF in every grammatical position); array values nested 1500 (also in Coq) / 9999/10000/10001/10003 deep (the bound of popValue) and 2,000,000 deep in a child process; random token soup incl. invalid UTF-8; both failFast values; non-trivial = distinct non-empty input"
+	res.Rule = "inputs: every sequence of <=3 tokens over a 24-entry alphabet (all token types, a space, a character no token starts with, an unterminated string) rendered with single spaces, every sequence of <=2 rendered adjacent; windows of the repository's .j5s/.bcl/fixture files, unmutated and with 1-3 token deletions/insertions/swaps/duplications/truncations and multi-byte characters at line ends; grammar-generated files; every lexer sub-automaton (string, regex, block/line comment, description, number, stray character) x every continuation (valid escapes, invalid escape, lone backslash) x every ending (closed, newline, end of input without newline) in six grammatical positions; an unexpected token of every literal kind with a literal around the 20-byte cut of the message, ASCII and multi-byte, in ten error sites; every token-boundary prefix of generated statements (EOF in every grammatical position); array values nested 1500 (also in Coq) / 9999/10000/10001/10003 deep (the bound of popValue) and 2,000,000 deep in a child process; random token soup incl. invalid UTF-8; both failFast values; non-trivial = distinct non-empty input"
 	cf := &vh.CasesFile{
 		Header: "From Coq Require Import String List NArith ZArith.\nFrom J5V.model Require Import BclErrpos BclCorr.",
 		Type:   "c11case",
@@ -171,7 +171,7 @@ func runC11(cfg *vh.Config) error {
 		inputs = append(inputs, input{s, "seq2adj", cfg.Tier == "thorough" || r.Chance(40)})
 	}
 	// ---- stream 2: corpus windows, unmutated and mutated
-	nWin := cfg.Scale(250, 6000)
+	nWin := cfg.Scale(250, 4500)
 	for i := 0; i < nWin; i++ {
 		w := window(r, vh.Pick(r, corpus), 10)
 		if i%3 != 0 {
@@ -186,7 +186,7 @@ func runC11(cfg *vh.Config) error {
 	}
 	// ---- stream 3: grammar-generated
 	g := &srcGen{r: r.Fork("gen")}
-	nGen := cfg.Scale(200, 6000)
+	nGen := cfg.Scale(200, 4500)
 	for i := 0; i < nGen; i++ {
 		s := g.file(5)
 		if i%2 == 1 {
@@ -195,12 +195,48 @@ func runC11(cfg *vh.Config) error {
 		inputs = append(inputs, input{s, "grammar", true})
 	}
 	// ---- stream 4: soup and raw bytes
-	nSoup := cfg.Scale(150, 4000)
+	nSoup := cfg.Scale(150, 3000)
 	for i := 0; i < nSoup; i++ {
 		if i%5 == 4 {
 			inputs = append(inputs, input{string(r.Bytes(r.Range(0, 24))), "bytes", true})
 		} else {
 			inputs = append(inputs, input{randomSoup(r, 10), "soup", true})
+		}
+	}
+
+	// ---- stream 4a: every lexer sub-automaton x every continuation x every ending (closed, newline, end of input),
+	// in several grammatical positions; all through the oracle, a sample through the model
+	{
+		tails := lexTails()
+		heads := []string{"", "a = ", "a ", "a {\n", "x = [1, ", "a.b: "}
+		afters := []string{"", "\nb = 1\n", " c\n"}
+		nEmit := cfg.Scale(200, 2500)
+		total := len(tails) * len(heads) * len(afters)
+		for _, h := range heads {
+			for _, t := range tails {
+				for _, a := range afters {
+					inputs = append(inputs, input{h + t + a, "lextail", r.Intn(total) < nEmit})
+				}
+			}
+		}
+	}
+
+	// ---- stream 4a': an unexpected token of every literal kind with a literal around the 20-byte cut of Token.String
+	// (17 bytes + "..."), ASCII and multi-byte (the cut is in bytes and may split a character), in every error site
+	{
+		var lits []string
+		for _, n := range []int{6, 7, 9, 10, 11, 19, 20, 21, 30} {
+			a, m := strings.Repeat("x", n), strings.Repeat("é", n)
+			lits = append(lits, a, "\""+a+"\"", "\""+m+"\"", "/"+a+"/", "/"+m+"/", "// "+a, "// "+m, "| "+m, "/* "+m+" */", strings.Repeat("7", n), "1."+strings.Repeat("5", n))
+		}
+		sites := []string{"a = 1 %s\n", "%s %s\n", "a = [1 %s]\n", "a = [%s %s]\n", "a.%s.1\n", "a ! %s =\n", "a += = %s\n", "a b : %s {\n", "} %s\n", "a {\n} %s\n"}
+		k := 0
+		for _, l := range lits {
+			for _, st := range sites {
+				src := strings.ReplaceAll(st, "%s", l)
+				inputs = append(inputs, input{src, "longlit", cfg.Tier == "thorough" || k%9 == int(cfg.Seed%9)})
+				k++
+			}
 		}
 	}
 
